@@ -138,6 +138,13 @@ RunOut(h, b, rq) == RunSt(h, b, rq).out     \* what an undisturbed iteration emi
 RunErr(h, b, rq) == RunSt(h, b, rq).err     \* ... and whether it ends in the datasource error
 CompletedOf(st)  == IF st.idx = 0 THEN 0 ELSE st.idx - 1     \* o.CompletedIndex = i after the i-th (0-based) id
 
+\* The walk looks at a history only through the concatenation of its versions' member lists and skips
+\* non-relation members: a history behaves exactly like the one-version, relation-only history Proj(h)[i].
+\* (Checked by TLC on the multi-version / mixed families - ProjectionLemma - so the exhaustive runs over the
+\* "flat" families speak for every way of splitting the same references over versions and member types.)
+RelOnly(ms) == SelectSeq(ms, LAMBDA m : m > 0)
+Proj(h) == [i \in 1 .. Len(h) |-> IF h[i] = << >> THEN << >> ELSE << RelOnly(Flat(h[i])) >>]
+
 IsPrefix(s, t) == Len(s) <= Len(t) /\ \A i \in 1 .. Len(s) : s[i] = t[i]
 
 (* ------------------------------------------------------------------------ *)
@@ -329,6 +336,7 @@ EmitsPrefixOfRunOut == (gpc = "run" /\ cpc = "n.ret" /\ res = "true") => IsPrefi
 RanToEndEmitsRunOut == (cpc = "n.ret" /\ res = "false" /\ ~cancelled) =>
                           /\ emitted = expect.out
                           /\ (perr = "dserr") = expect.err
+ProjectionLemma == (gpc = "run" /\ ppc = "top" /\ ri = 1 /\ cpc = "idle") => expect = RunSt(Proj(hist), bad, req)
 CompletedAtEnd == ppc = "done" => (perr = "canceled" \/ completed = CompletedOf(expect))
 VisitedIsEmittedOrSending == visited = SeqSet(emitted) \cup (IF ppc = "send" THEN {Top.id} ELSE {})
                              \/ perr = "canceled"
